@@ -103,7 +103,23 @@ def parseAd (j : Json) (k : String) : Option AdSpec :=
   match j.getObjVal? k with
   | .ok (.obj o) =>
     let a := Json.obj o
-    some { body := optStr a "body", compress := optBool a "compress", decompress := optBool a "decompress" }
+    some { body := optStr a "body", compress := optBool a "compress", decompress := optBool a "decompress",
+           hdel := (getStrList a "hdel").toOption.getD [], hset := parsePairs a "hset", hadd := parsePairs a "hadd" }
+  | _ => none
+
+/-- `h.Del/Set/Add` canonicalise their key. -/
+def canonAd (canon : String → String) (a : AdSpec) : AdSpec :=
+  { a with hdel := a.hdel.map canon, hset := a.hset.map (fun kv => (canon kv.1, kv.2)),
+           hadd := a.hadd.map (fun kv => (canon kv.1, kv.2)) }
+
+def parseCache (cfg : Json) : Option CacheCfg :=
+  match cfg.getObjVal? "cache" with
+  | .ok (.obj o) =>
+    let c := Json.obj o
+    let codes := ((getIntList c "codes").toOption.getD []).map Int.toNat
+    let methods := (getStrList c "methods").toOption.getD []
+    let mx := (optInt c "maxEntryBytes").toNat
+    if codes.isEmpty || methods.isEmpty || mx == 0 then none else some ⟨codes, methods, mx⟩
   | _ => none
 
 structure Scenario where
@@ -140,6 +156,12 @@ def parseScenario (i : Json) : Scenario :=
     reqAd := parseAd cfg "reqAd", respAd := parseAd cfg "respAd",
     bStatus := if st < 100 || st > 599 then 200 else st,
     bLines := parsePairs be "hdrs", bBody := parseBodyD be "body" }
+
+/-- A history step: the step object supplies the request and the backend script, the
+top-level object the configuration. -/
+def parseStepScenario (input step : Json) : Scenario :=
+  let cfg := (input.getObjVal? "cfg").toOption.getD Json.null
+  parseScenario (step.setObjVal! "cfg" cfg)
 
 structure Oracle where
   req : Blob
@@ -206,7 +228,7 @@ def build (sc : Scenario) (o : Oracle) (dflt : Int) : Built :=
     { server := ⟨o.serverURL, o.serverHP, serverIsName, sc.keepHost⟩,
       compression := if sc.compression < 0 then none else some sc.compression.toNat,
       pathMax := sc.pathMax, serverMax := sc.serverMax, poolMax := sc.poolMax, proxyMax := sc.proxyMax,
-      reqAd := sc.reqAd, respAd := sc.respAd, dflt := dflt }
+      reqAd := sc.reqAd.map (canonAd o.canon), respAd := sc.respAd.map (canonAd o.canon), dflt := dflt }
   -- the backend's reply as the transport parses it
   let bwire := wireSym sc.bBody o.back
   let nobody := bodylessStatus sc.bStatus
